@@ -4,6 +4,9 @@ package app
 
 import (
 	"bytes"
+	"regexp"
+	"strconv"
+	"time"
 	"text/template"
 
 	"github.com/Eyevinn/mp4ff/mp4"
@@ -33,4 +36,37 @@ func vSubsWritten(w *vHW2) (nr, bmdt, dur int) {
 		dur += int(s.Dur)
 	}
 	return int(fr.Moof.Mfhd.SequenceNumber), int(fr.Moof.Traf.Tfdt.BaseMediaDecodeTime()), dur
+}
+
+// vStppCuesOf parses the rendered TTML of a generated stpp segment (native side).
+func vStppCuesOf(seg *mp4.MediaSegment) (cues []vStppCue, region int) {
+	ss, err := seg.Fragments[0].GetFullSamples(nil)
+	if err != nil || len(ss) != 1 {
+		panic("vStppCuesOf: cannot read the sample")
+	}
+	doc := string(ss[0].Data)
+	rm := regexp.MustCompile(`<div region="r(\d+)">`).FindStringSubmatch(doc)
+	if rm == nil {
+		panic("vStppCuesOf: no region")
+	}
+	region, _ = strconv.Atoi(rm[1])
+	re := regexp.MustCompile(`<p xml:id="(\d+)-(\d+)" begin="(\d+):(\d+):(\d+)\.(\d+)" end="(\d+):(\d+):(\d+)\.(\d+)"><span style="s1">([^<]*)<br/>`)
+	for _, m := range re.FindAllStringSubmatch(doc, -1) {
+		at := func(i int) int { v, _ := strconv.Atoi(m[i]); return v }
+		t, err := time.Parse(time.RFC3339, m[11])
+		if err != nil {
+			panic("vStppCuesOf: message time " + m[11])
+		}
+		cues = append(cues, vStppCue{idNr: at(1), idIdx: at(2), beginMS: ((at(3)*60+at(4))*60+at(5))*1000 + at(6),
+			endMS: ((at(7)*60+at(8))*60+at(9))*1000 + at(10), utcMS: int(t.UnixMilli())})
+	}
+	return cues, region
+}
+
+func vSegSampleTiming(seg *mp4.MediaSegment) (n, decodeTime, dur int) {
+	ss, err := seg.Fragments[0].GetFullSamples(nil)
+	if err != nil {
+		panic(err)
+	}
+	return len(ss), int(ss[0].DecodeTime), int(ss[0].Dur)
 }
